@@ -106,6 +106,21 @@ theorem facts_handle_auth :
       "tblSet.Has(operationPriv)"] := by
   decide
 
+/-- Shape of the privilege lookups of `UserHasPrivileges`: every level (global, database, table, routine)
+is asked about ONE static privilege of the operation at a time, inside the loop over
+`operation.StaticPrivileges` (the model's `op.statics.all (fun p => … || … || … || …)`), never about the
+whole list at once — that reading (`opAllowedOneLevel` below) is a different decision
+(`oneLevel_differs`). -/
+theorem facts_per_privilege_lookups :
+    userHasPrivilegesLookups = [
+      ("", "privSet.Has", "sql.PrivilegeType_Super"),
+      ("operationPriv := range operation.StaticPrivileges", "privSet.Has", "operationPriv"),
+      ("operationPriv := range operation.StaticPrivileges", "dbSet.Has", "operationPriv"),
+      ("operationPriv := range operation.StaticPrivileges", "tblSet.Has", "operationPriv"),
+      ("operationPriv := range operation.StaticPrivileges", "routineSet.Has", "operationPriv"),
+      ("operationPriv := range operation.DynamicPrivileges", "privSet.HasDynamic", "operationPriv")] := by
+  decide
+
 /-! ## The decision -/
 
 /-- What `UserHasPrivileges` demands of one operation, in terms of the grants held. -/
@@ -277,6 +292,95 @@ theorem finding_db_revoke_drops_lower_grants (d t : String) (p q : Priv) :
   have := hcon g
   rw [h1] at this
   simp [h2] at this
+
+/-! ## Statements that require several privileges -/
+
+/-- An operation that requires several static privileges is decided privilege by privilege: it is
+allowed exactly when each of its static privileges alone would be allowed on the same subject (and
+the dynamic ones are held). Nothing couples the levels at which two different privileges are found. -/
+theorem multi_priv_decomposes (v : View) (cur : String) (op : Op) :
+    opAllowed v cur op =
+      (op.statics.all (fun p => opAllowed v cur { op with statics := [p], dynamics := [] })
+        && op.dynamics.all v.hasDyn) := by
+  simp [opAllowed, opDb]
+
+/-- Appending requirements: `[p₁ … pₙ] ++ [q₁ … qₘ]` is allowed iff both halves are. -/
+theorem opAllowed_append (v : View) (cur : String) (op : Op) (ps qs : List Priv) :
+    opAllowed v cur { op with statics := ps ++ qs } =
+      (opAllowed v cur { op with statics := ps } && opAllowed v cur { op with statics := qs, dynamics := [] }) := by
+  simp only [opAllowed, opDb, List.all_append, List.all_nil, Bool.and_true]
+  cases List.all ps _ <;> cases List.all qs _ <;> simp
+
+/-- The coupled reading (all static privileges of the operation found together at ONE level: all
+global, or all on the database, or all on the table, or all on the routine). It is NOT what the code
+and the Spec demand; it is defined here to state how it differs. -/
+def opAllowedOneLevel (v : View) (cur : String) (op : Op) : Bool :=
+  (op.statics.all v.hasGlobal || op.statics.all (v.hasDb (opDb cur op)) ||
+    op.statics.all (v.hasTbl (opDb cur op) op.tbl) || op.statics.all (v.hasRtn (opDb cur op) op.rtn op.isProc))
+  && op.dynamics.all v.hasDyn
+
+/-- The coupled reading never allows more … -/
+theorem oneLevel_imp_allowed (v : View) (cur : String) (op : Op)
+    (h : opAllowedOneLevel v cur op = true) : opAllowed v cur op = true := by
+  simp only [opAllowedOneLevel, opAllowed, Bool.and_eq_true, Bool.or_eq_true, List.all_eq_true] at h ⊢
+  refine ⟨fun p hp => ?_, h.2⟩
+  rcases h.1 with ((h1 | h1) | h1) | h1
+  · exact Or.inl (Or.inl (Or.inl (h1 p hp)))
+  · exact Or.inl (Or.inl (Or.inr (h1 p hp)))
+  · exact Or.inl (Or.inr (h1 p hp))
+  · exact Or.inr (h1 p hp)
+
+/-- … and agrees with the real decision on every operation that needs at most one static privilege
+(all the single-privilege statement classes): only multi-privilege statements can tell them apart. -/
+theorem oneLevel_eq_of_single (v : View) (cur : String) (op : Op) (h : op.statics.length ≤ 1) :
+    opAllowedOneLevel v cur op = opAllowed v cur op := by
+  match hs : op.statics, h with
+  | [], _ => simp [opAllowedOneLevel, opAllowed, hs]
+  | [p], _ => simp [opAllowedOneLevel, opAllowed, hs]
+
+/-- **Privileges held at different levels add up** (database + table): after `GRANT p ON d.*` and
+`GRANT q ON d.t` — in this order or the other, on top of any set — the operation on `d.t` that needs
+both `p` and `q` (REPLACE: INSERT+DELETE, LOCK TABLES, RENAME, a non-super GRANT) is allowed. -/
+theorem split_levels_allowed (ps : PrivSet) (cur d t : String) (p q : Priv) (hd : d ≠ "") :
+    userHasPrivileges ((ps.addDb d [p]).addTbl d t [q]).view cur [{ db := d, tbl := t, statics := [p, q] }] = true ∧
+    userHasPrivileges ((ps.addTbl d t [q]).addDb d [p]).view cur [{ db := d, tbl := t, statics := [p, q] }] = true := by
+  have e3 : ∀ (s : PrivSet) d p, s.view.hasDb d p = s.holds (.db (lower d) p) := fun _ _ _ => rfl
+  have e4 : ∀ (s : PrivSet) d t p, s.view.hasTbl d t p = s.holds (.tbl (lower d) (lower t) p) := fun _ _ _ _ => rfl
+  constructor <;>
+  · simp only [userHasPrivileges, opAllowed, opDb, hd, List.all_cons, List.all_nil, Bool.and_true, if_false, e3, e4,
+      PrivSet.holds_addTbl, PrivSet.holds_addDb]
+    simp
+
+/-- The same through a role: one privilege on the account's own table-level set, the other held
+globally by a role united into the active set (`UserActivePrivilegeSet`). -/
+theorem split_levels_allowed_role (own role : PrivSet) (cur d t : String) (p q : Priv) (hd : d ≠ "") :
+    userHasPrivileges ((own.addTbl d t [p]).union (role.addGlobal [q])).view cur
+      [{ db := d, tbl := t, statics := [p, q] }] = true := by
+  have e1 : ∀ (s : PrivSet) p, s.view.hasGlobal p = s.holds (.glob p) := fun _ _ => rfl
+  have e4 : ∀ (s : PrivSet) d t p, s.view.hasTbl d t p = s.holds (.tbl (lower d) (lower t) p) := fun _ _ _ _ => rfl
+  simp only [userHasPrivileges, opAllowed, opDb, hd, List.all_cons, List.all_nil, Bool.and_true, if_false, e1, e4,
+    PrivSet.holds_union, PrivSet.holds_addTbl, PrivSet.holds_addGlobal]
+  simp
+
+/-- The two readings really differ: INSERT ON d.* together with DELETE ON d.t allows REPLACE INTO d.t
+(`split_levels_allowed`), while the coupled reading refuses it. A change of `UserHasPrivileges` to the
+coupled reading is therefore visible on this input (and only on inputs of this kind,
+`oneLevel_eq_of_single`). -/
+theorem oneLevel_differs :
+    opAllowed ((({} : PrivSet).addDb "d" [P_Insert]).addTbl "d" "t" [P_Delete]).view "d"
+      { db := "d", tbl := "t", statics := [P_Insert, P_Delete] } = true ∧
+    opAllowedOneLevel ((({} : PrivSet).addDb "d" [P_Insert]).addTbl "d" "t" [P_Delete]).view "d"
+      { db := "d", tbl := "t", statics := [P_Insert, P_Delete] } = false := by
+  have e1 : ∀ (s : PrivSet) p, s.view.hasGlobal p = s.holds (.glob p) := fun _ _ => rfl
+  have e3 : ∀ (s : PrivSet) d p, s.view.hasDb d p = s.holds (.db (lower d) p) := fun _ _ _ => rfl
+  have e4 : ∀ (s : PrivSet) d t p, s.view.hasTbl d t p = s.holds (.tbl (lower d) (lower t) p) := fun _ _ _ _ => rfl
+  have e5 : ∀ (s : PrivSet) d r b p, s.view.hasRtn d r b p = s.holds (.rtn (lower d) (lower r) b p) := fun _ _ _ _ _ => rfl
+  have h0 : ∀ g, ({} : PrivSet).holds g = false := by
+    intro g; cases g <;> simp [PrivSet.holds, mget]
+  constructor <;>
+  · simp only [opAllowed, opAllowedOneLevel, opDb, List.all_cons, List.all_nil, Bool.and_true, e1, e3, e4, e5,
+      PrivSet.holds_addTbl, PrivSet.holds_addDb, h0]
+    simp [P_Insert, P_Delete]
 
 /-- Granting privileges that were not held and revoking the same ones restores the set (table level;
 the other non-database levels are alike). -/
